@@ -29,4 +29,40 @@ theorem C05_csv_cr_witness :
     readAll (writeRowWith false [[97, 13, 98], [120]]) = some [[[97]], [[98], [120]]] := by
   rw [readAll_eq_go]; decide
 
+theorem zipPad_eq_zip (hdr r : List Str) (h : r.length = hdr.length) :
+    zipPad hdr r = hdr.zip (r.map some) := by
+  induction hdr generalizing r with
+  | nil => cases r with
+    | nil => rfl
+    | cons v vs => simp at h
+  | cons x xs ih => cases r with
+    | nil => simp at h
+    | cons v vs =>
+      simp only [zipPad, List.map_cons, List.zip_cons_cons]
+      rw [ih vs (by simpa using h)]
+
+/-- The database as the tools see it: a header and rows of as many fields, written by the tools'
+writer, are read back by `csv.DictReader` as exactly those rows, every value under its field name,
+nothing missing (`None`) and nothing surplus — whatever characters the fields hold. -/
+theorem C05_db_roundtrip (hdr : List Str) (rows : List (List Str)) (hne : hdr ≠ [])
+    (hl : ∀ r ∈ rows, r.length = hdr.length) :
+    dictRead (writeRows (hdr :: rows)) =
+      some (rows.map (fun r => { vals := hdr.zip (r.map some), extra := [] })) := by
+  unfold dictRead
+  rw [C05_csv_roundtrip]
+  simp only [Option.map_some, dictRows, Option.some.injEq]
+  have hpos : 0 < hdr.length := List.length_pos_iff.mpr hne
+  have hf : rows.filter (fun r => !r.isEmpty) = rows := by
+    apply List.filter_eq_self.mpr
+    intro r hr
+    have : r.length = hdr.length := hl r hr
+    cases r with
+    | nil => simp at this; omega
+    | cons _ _ => rfl
+  rw [hf]
+  apply List.map_congr_left
+  intro r hr
+  have hlen := hl r hr
+  rw [zipPad_eq_zip hdr r hlen, List.drop_of_length_le (by omega)]
+
 end Pff.Csv
